@@ -229,6 +229,17 @@ func scenarios(prop, tier string) []*Scenario {
 		// the heights that were already written to the header files), then pruning
 		r = append(r, &Scenario{Name: "genesis/mark-between-cleans-prune-depth-2", Cfg: hdr.Config{MaxBranchDepth: 2}, N: pick(6, 7), M: 2, Marks: 1,
 			Maint: []hdr.Op{{K: "cleand", D: 2}}, Slots: []string{"a", "H"}, OnlyTipParents: 2, MarkOnlyKnown: true})
+		// a Clean whose 1st .. 6th storage call fails (a transient storage fault; the error is
+		// returned): what the repository reports is the same as before, side branches stay
+		// extendable, and a later Clean goes through
+		{
+			maint := []hdr.Op{{K: "cleand", D: 3}}
+			for k := 1; k <= 6; k++ {
+				maint = append(maint, hdr.Op{K: "cleand", D: 3, L: "fault" + itoa(k)})
+			}
+			r = append(r, &Scenario{Name: "genesis/clean-with-storage-fault-depth-3", Cfg: hdr.Config{MaxBranchDepth: 2}, N: pick(4, 5), M: 2,
+				Maint: maint, Slots: []string{"a", "H"}})
+		}
 		for _, s := range r {
 			s.oracles = []oracle{oracleC10, oracleC01, oracleC08verdict, oracleC09}
 			// the lookup API is called after every operation of the history (a read must not influence
